@@ -223,6 +223,7 @@ def write_evidence(prop, tier, seed, n_ob, n_ok, n_b, n_bok, groups_ev, samples,
                              'note': 'bounded groups (unwind N with unwinding assertions) are never counted in obligations/discharged'},
         'extraction_drops': vcheck.EXTRACTION_DROPS,
         'static_facts': static_facts[:60],
+        'extraction_fidelity_observations': next((m.get('fidelity') for m in metas.values() if m.get('fidelity')), {}),
         'known_findings_hit': [k['what'] for k, _, _ in known_hits],
         'undecided': infra,
         'groups_deferred_to_thorough_tier': list(deferred),
